@@ -49,7 +49,12 @@ class C08(Prop):
                 # a second Prepare that fails (the host swapped in a script that does not parse), then everything again
                 ops += ";badprepare;dump;exec:1;run:1;prepare:%s;dump;exec:1" % rng.choice(["opt", "noopt"])
             script = raw.hex() if raw is not None else vlib.hx(src)
-            return Case("run", {"script": script, "objs": obj + ";" + benign, "ops": ops}, stream, nontrivial=nontrivial)
+            f = {"script": script, "objs": obj + ";" + benign, "ops": ops}
+            if stream in ("malformed", "cut-off"):
+                # mutants of small programs: one that was turned into an endless loop ends for the implementation at the harness's
+                # back-stop and for the model when its fuel runs out (the case is then dropped); a small budget keeps that cheap
+                f["fuel"] = "8000"
+            return Case("run", f, stream, nontrivial=nontrivial)
         for src in FAULTY:
             for obj in ["N", benign]:
                 out.append(case(src, obj, "faulty"))
